@@ -330,8 +330,9 @@ impl Document {
             // TODO: Allow spaces between `a` and `b`
 
             if let (TokenKind::Number(..), TokenKind::Word(..)) = (&a.kind, &b.kind) {
-                // The word has to be the suffix, not merely start with it (`1street`).
-                if b.span.len() != 2 {
+                // The word has to be the suffix, not merely start with it (`1street`), and has to
+                // follow the number directly in the source.
+                if b.span.len() != 2 || a.span.end != b.span.start {
                     continue;
                 }
 
@@ -421,6 +422,16 @@ impl Document {
         let mut remove_indices = VecDeque::with_capacity(matches.len());
 
         for m in matches {
+            // Tokens can be neighbours in the token stream without being neighbours in the
+            // source (e.g. around text masked out by a parser): those are not one construct.
+            let contiguous = self.tokens[m.start..m.end]
+                .windows(2)
+                .all(|w| w[0].span.end == w[1].span.start);
+
+            if !contiguous {
+                continue;
+            }
+
             remove_indices.extend(m.start + 1..m.end);
             self.tokens[m.start].span = self.tokens[m.into_iter()].span().unwrap();
             edit(&mut self.tokens[m.start]);
@@ -458,7 +469,6 @@ impl Document {
                         *start_count += n;
                         start_tok.span.end = child_tok.span.end;
                         remove_these.push_back(cursor);
-                        cursor += 1;
                     } else {
                         break;
                     };
@@ -482,19 +492,31 @@ impl Document {
 
         let mut cursor = 1;
 
-        let mut initialism_start = None;
+        let mut initialism_start: Option<usize> = None;
 
         while cursor < self.tokens.len() {
             let a = &self.tokens[cursor - 1];
             let b = &self.tokens[cursor];
 
-            let is_initialism_chunk = a.kind.is_word() && a.span.len() == 1 && b.kind.is_period();
+            let is_initialism_chunk = a.kind.is_word()
+                && a.span.len() == 1
+                && b.kind.is_period()
+                && a.span.end == b.span.start;
 
             if is_initialism_chunk {
-                if initialism_start.is_none() {
-                    initialism_start = Some(cursor - 1);
-                } else {
+                // Does this chunk directly follow the previous one in the source?
+                let continues = initialism_start.is_some()
+                    && self.tokens[cursor - 2].span.end == a.span.start;
+
+                if continues {
                     to_remove.push_back(cursor - 1);
+                } else {
+                    if let Some(start) = initialism_start {
+                        let end = self.tokens[cursor - 2].span.end;
+                        self.tokens[start].span.end = end;
+                    }
+
+                    initialism_start = Some(cursor - 1);
                 }
 
                 to_remove.push_back(cursor);
